@@ -56,6 +56,10 @@ def _scope_locals(node):
         if isinstance(n, ast.ClassDef):
             loc.add(n.name)
             continue
+        if isinstance(n, (ast.ListComp, ast.SetComp, ast.GeneratorExp, ast.DictComp)):
+            # only the first iterable is evaluated in this scope
+            stack.append(n.generators[0].iter)
+            continue
         if isinstance(n, ast.Name) and isinstance(n.ctx, (ast.Store, ast.Del)):
             loc.add(n.id)
         elif isinstance(n, ast.ExceptHandler) and n.name:
@@ -119,6 +123,25 @@ class _Alpha:
                 inner[a.arg] = (sid, a.arg)
                 self.touch(a, "arg", inner[a.arg])
             self.visit(n.body, inner)
+            return
+        if isinstance(n, (ast.ListComp, ast.SetComp, ast.GeneratorExp, ast.DictComp)):
+            # comprehension variables live in their own scope (they may shadow a parameter)
+            self.nscope += 1
+            sid = self.nscope
+            inner = dict(env)
+            for g in n.generators:
+                self.visit(g.iter, inner)
+                for t in ast.walk(g.target):
+                    if isinstance(t, ast.Name):
+                        inner[t.id] = (sid, t.id)
+                self.visit(g.target, inner)
+                for c in g.ifs:
+                    self.visit(c, inner)
+            if isinstance(n, ast.DictComp):
+                self.visit(n.key, inner)
+                self.visit(n.value, inner)
+            else:
+                self.visit(n.elt, inner)
             return
         if isinstance(n, ast.Name):
             if n.id in env:
